@@ -44,6 +44,13 @@ def main() -> int:
         r = subprocess.run([sys.executable, str(VERIF / "tools" / "verify_seed.py"), d, name, pid] + RELATED[pid],
                            capture_output=True, timeout=4 * 3600)
         txt = r.stdout.decode(errors="replace") + r.stderr.decode(errors="replace")
+        base = os.environ.get("VERIF_ROUND_BASE_REV")
+        if base and ('"patch_applies": false' in txt or '"demo_unpatched_rc": 1' in txt or '"demo_patched_rc": 0' in txt):
+            # written for an earlier revision whose context a later fix rewrote (or whose effect a later fix
+            # neutralised): confirm and check against that revision
+            r = subprocess.run([sys.executable, str(VERIF / "tools" / "verify_seed.py"), d, name, pid] + RELATED[pid],
+                               capture_output=True, timeout=6 * 3600, env=dict(os.environ, VERIF_SEED_BASE_REV=base))
+            txt = r.stdout.decode(errors="replace") + r.stderr.decode(errors="replace")
         open(out, "w").write(txt)
         try:
             i = txt.index('{\n "property"')
